@@ -3,6 +3,8 @@ package main
 
 import (
 	"fmt"
+	"go/ast"
+	"go/types"
 	"os"
 
 	"verif/checker/internal/core"
@@ -25,6 +27,14 @@ func main() {
 		os.Exit(2)
 	}
 	x := &gee.Extractor{Info: p.TypesInfo, Fset: c.Fset, AllReturns: os.Getenv("GEE_ALL") != ""}
+	if os.Getenv("GEE_CALLS") != "" {
+		x.Decl = func(f *types.Func) *ast.FuncDecl {
+			if f.Pkg() != p.Types {
+				return nil
+			}
+			return c.Decl(f)
+		}
+	}
 	for _, r := range x.Extract(os.Args[2], d) {
 		fmt.Println(r.String())
 	}
